@@ -278,6 +278,11 @@ class C09(Prop):
                 fence = rng.choice(['``', '```', '````', '--', '---'])
                 cls = rng.choice(['', '', ' js']) if fence[0] == '`' else ''
                 lines = [l for l in markup_soup(rng, ctx.repo) if l != fence]
+                for _ in range(rng.choice([0, 0, 1, 2])):
+                    # lines that are almost, but not, the closing fence
+                    near = rng.choice([fence + ' ', fence + '\t', ' ' + fence, fence + fence[0], fence[:-1], fence + ' x', '\\' + fence,
+                                       fence + '  ', fence[0]])
+                    lines.insert(rng.randrange(len(lines) + 1), near)
                 content = '\n'.join(lines)
                 content = ''.join(' ' if ord(c) <= 2 else c for c in content)
                 src = head + fence + cls + '\n' + content + '\n' + fence
@@ -353,7 +358,17 @@ class Blocks:
 
     def block(self, depth, used):
         rng = self.rng
-        k = rng.randrange(10 if depth > 0 else 7)
+        k = rng.randrange(11 if depth > 0 else 8)
+        if k == 7:
+            # a (flat) list: the tenth block kind; what follows it must not attach to it (two blank lines, see doc)
+            self.kinds.add('list')
+            mk = rng.choice(['-', '*', '.', '+'])
+            items = [plain(rng, 1, 3) for _ in range(rng.randint(1, 3))]
+            tag = 'ol' if mk == '.' else 'ul'
+            return {'kind': 'list', 'src': '\n'.join('%s %s' % (mk, t) for t in items), 'starts': '<%s>' % tag,
+                    'exact': '<%s>%s</%s>' % (tag, ''.join('<li>%s</li>' % esc(t) for t in items), tag)}
+        if k > 7:
+            k -= 1
         if k == 0:
             self.kinds.add('paragraph')
             return {'kind': 'paragraph', 'src': self.para_text(), 'starts': '<p>'}
@@ -366,7 +381,8 @@ class Blocks:
                     'exact': '<h%d>%s</h%d>' % (n, esc(t), n)}
         if k == 2:
             fence = rng.choice(['``', '```', '--', '----'])
-            body = '\n'.join(rng.choice([plain(rng), '# not a header', '- not a list', '', '<b>', '.,.', '*x*']) for _ in range(rng.randint(1, 3)))
+            body = '\n'.join(rng.choice([plain(rng), '# not a header', '- not a list', '', '<b>', '.,.', '*x*', fence + ' ', ' ' + fence,
+                                          fence + fence[0], fence[:-1]]) for _ in range(rng.randint(1, 3)))
             self.kinds.add('code')
             return {'kind': 'code', 'src': '%s\n%s\n%s' % (fence, body, fence), 'starts': '<pre><code>',
                     'exact': '<pre><code>%s</code></pre>' % esc(body)}
@@ -420,7 +436,8 @@ class Blocks:
         for i, b in enumerate(blocks):
             src += b['src']
             if i < len(blocks) - 1:
-                src += rng.choice(['\n\n', '\n\n\n'])
+                # two blank lines end a list: one would let the next block attach to, or continue, the last item
+                src += '\n\n\n' if b['kind'] == 'list' else rng.choice(['\n\n', '\n\n\n'])
         return {'blocks': blocks, 'src': src}
 
 
@@ -578,6 +595,31 @@ class C10(Prop):
         rng = ctx.rng
         while True:
             g = ListGen(rng)
+            if rng.random() < 0.2:
+                # "at most one attached block": a second block after an item that already has one ends the list (it is
+                # rendered after the list, and a later item with the same marker opens a new list)
+                mk = rng.choice(['-', '+', '*', '.', '..'])
+                tag = LIST_TAGS[mk[0]]
+                al, ah, blank_terminated = g.attached()
+                nested = rng.random() < 0.3
+                mk2 = '**' if mk != '**' else '-'
+                tag2 = LIST_TAGS[mk2[0]]
+                lines = ['%s a' % mk] + (['%s b' % mk2] if nested else []) + al
+                one_blank = [] if blank_terminated else ['']
+                b2, b2h = rng.choice([(one_blank + ['  ind2', ''], '<pre><code>ind2</code></pre>'),
+                                      (one_blank + ['> qp', ''], '<blockquote><p> qp</p></blockquote>'),
+                                      (rng.choice([[], one_blank]) + ['``', 'c2', '``'] + rng.choice([[], ['']]), '<pre><code>c2</code></pre>'),
+                                      (rng.choice([[], one_blank]) + ['""', 'q2', '""'] + rng.choice([[], ['']]), '<blockquote><p>q2</p></blockquote>')])
+                last_mk, last_tag = (mk2, tag2) if nested else (mk, tag)
+                lines += b2 + ['%s c' % last_mk]
+                if nested:
+                    html = '<%s><li>a<%s><li>b%s</li></%s></li></%s>' % (tag, tag2, ah, tag2, tag)
+                else:
+                    html = '<%s><li>a%s</li></%s>' % (tag, ah, tag)
+                html += b2h + '<%s><li>c</li></%s>' % (last_tag, last_tag)
+                g.kinds.add('second-attachment')
+                yield {'src': '\n'.join(lines), 'expected': html, 'safeMode': rng.choice([0, 0, 1, 5, 15]), 'kinds': sorted(g.kinds)}
+                continue
             lines, html = g.lst(rng.randint(1, 4), frozenset())
             while lines and lines[-1] == '':
                 lines.pop()
